@@ -24,20 +24,13 @@ func prelude() string {
 		p := pow2(w).String()
 		h := pow2(w - 1).String()
 		fmt.Fprintf(&b, "(define-fun wrap_u%d ((x Int)) Int (ite (>= x %s) (- x %s) (ite (< x 0) (+ x %s) x)))\n", w, p, p, p)
-		fmt.Fprintf(&b, "(define-fun wrapm_u%d ((x Int)) Int (mod x %s))\n", w, p)
+		fmt.Fprintf(&b, "(define-fun wrapm_u%d ((x Int)) Int (ite (and (<= 0 x) (< x %s)) x (mod x %s)))\n", w, p, p)
 		fmt.Fprintf(&b, "(define-fun wrap_s%d ((x Int)) Int (ite (>= x %s) (- x %s) (ite (< x (- %s)) (+ x %s) x)))\n", w, h, p, h, p)
-		fmt.Fprintf(&b, "(define-fun wrapm_s%d ((x Int)) Int (- (mod (+ x %s) %s) %s))\n", w, h, p, h)
-		// shifts of a bit-vector by an integer amount (table, no int2bv)
+		fmt.Fprintf(&b, "(define-fun wrapm_s%d ((x Int)) Int (ite (and (<= (- %s) x) (< x %s)) x (- (mod (+ x %s) %s) %s)))\n", w, h, h, h, p, h)
+		// shifts of a bit-vector by an integer amount: int2bv of the (non-negative) amount,
+		// saturated at the width (measured: 0.5 s where a 64-way ite table timed out)
 		for _, op := range []string{"bvshl", "bvlshr", "bvashr"} {
-			fmt.Fprintf(&b, "(define-fun %s_i%d ((x (_ BitVec %d)) (n Int)) (_ BitVec %d) ", op, w, w, w)
-			cl := 0
-			for k := 0; k < w; k++ {
-				fmt.Fprintf(&b, "(ite (= n %d) (%s x (_ bv%d %d)) ", k, op, k, w)
-				cl++
-			}
-			fmt.Fprintf(&b, "(%s x (_ bv%d %d))", op, w, w) // amount >= width
-			b.WriteString(strings.Repeat(")", cl))
-			b.WriteString(")\n")
+			fmt.Fprintf(&b, "(define-fun %s_i%d ((x (_ BitVec %d)) (n Int)) (_ BitVec %d) (%s x (ite (>= n %d) (_ bv%d %d) ((_ int2bv %d) n))))\n", op, w, w, w, op, w, w, w, w)
 		}
 		// uninterpreted bit operations for Int-mode values
 		for _, op := range []string{"and", "or", "xor", "shl", "shr"} {
